@@ -179,7 +179,7 @@ def run_one(it):
                 rec["calls"].append({"api": tag + f"crossing_request_sv{k}", "want": canon(eq.status_variables[10].value), "got": canon(got)})
                 rec["calls"].append({"api": tag + f"crossing_trigger_returned{k}", "want": canon(True), "got": canon(bool(dn.get("b")))})
 
-        def session(tag):
+        def session(tag, last=False):
             call(tag + "clear_collection_events", lambda: (host.clear_collection_events(), "ok")[1], "ok")
             call(tag + "request_svs", lambda: host.request_svs([10]).get(), lambda: [eq.status_variables[10].value])
             call(tag + "request_sv", lambda: host.request_sv(10), lambda: eq.status_variables[10].value)
@@ -219,10 +219,12 @@ def run_one(it):
             call(tag + "remote_command", lambda: host.send_remote_command("START", []).HCACK.get(), 4)
             s.run_until(lambda: bool(started), max_dt=50)
             call(tag + "remote_command_executed", lambda: len(started) >= 1, True)
+            if it.get("stay_online") and not last:
+                return          # the link is cut / a side is disabled while the equipment is ON-LINE
             call(tag + "go_offline", lambda: host.go_offline(), 0)
             call(tag + "control_state_offline", lambda: eq.control_state.current.name, "HOST_OFFLINE")
 
-        session("s1.")
+        session("s1.", last=(it.get("cut") is None and not it["cycles"]))
         if it.get("cut") is not None:
             # the link drops in the middle of a message; both sides must notice, reconnect and communicate again
             net.cut_after = it["cut"]
@@ -243,7 +245,7 @@ def run_one(it):
             s.run_until(lambda: cdone["v"], max_dt=100)
             del started[:]
             eq.alarms[40].enabled = False
-            session("s1b.")
+            session("s1b.", last=not it["cycles"])
         for cyc, who in enumerate(it["cycles"], start=1):
             side = host if who == "H" else eq
             dn = {"v": False}
@@ -267,7 +269,7 @@ def run_one(it):
                 del started[:]
                 # report subscriptions do not survive on the equipment only if it was the disabled side? they do: state is kept
                 eq.alarms[40].enabled = False
-                session(f"s{cyc + 1}.")
+                session(f"s{cyc + 1}.", last=True)
         for hnd in (host, eq):
             dn2 = {"v": False}
 
@@ -315,7 +317,7 @@ def run(ctx: Ctx):
                         items.append({"id": tid, "active": active, "order": order, "cap": cap, "cycles": cycles, "latency": 0,
                                       "cut": rng.choice([None, 3, 7, 11, 14, 20]) if cycles != ["E", "H"] else None,
                                       "seed": rng.randrange(1 << 30), "policy": rng.choice(["fifo", "random", "pct"]),
-                                      "lag": [None, "select", "app", "enable"][tid % 4], "ctr": "equal" if tid % 3 == 0 else "random"})
+                                      "lag": [None, "select", "app", "enable"][tid % 4], "ctr": "equal" if tid % 3 == 0 else "random", "stay_online": tid % 2 == 1})
     recs = [r_ for batch in pmap(run_batch, chunks(items, 32)) for r_ in batch]
     for r_ in recs:
         if r_.get("errors") and "Machinery" in str(r_["errors"]):
@@ -353,7 +355,7 @@ def run(ctx: Ctx):
     from . import c04_trace
     c04_trace.check(ctx, wd, pmap, only_plain=True)
     ctx.rule = ("sessions = {host active, equipment active} x {host first, equipment first} x receive buffer {64 KiB, 64 B} x "
-                "disable/enable cycles {none, host, equipment, both} x thread schedule (fifo / random / PCT, optionally with wake-up latency "
+                "disable/enable cycles {none, host, equipment, both} x {equipment ON-LINE, OFF-LINE when the link is cut / a side is disabled} x thread schedule (fifo / random / PCT, optionally with wake-up latency "
                 "of the select thread or of application / protocol helper threads, or the enabling thread descheduled between the "
                 "statements of enable() / disable()); each session: 27 host calls (incl. two-constant S2F15 requests, accepted and refused) + 3 concurrent ones compared with the "
                 "equipment's tables, 2 collection events (one triggered together with an event nobody subscribed to), remote command; non-trivial = distinct configurations that completed a session")
